@@ -153,6 +153,43 @@ def shape():
     return facts
 
 
+def names():
+    """the file names the cache uses (the model spells them as literals; C08_cache_names compares)"""
+    u = strip_comments(open(os.path.join(REPO, "src/occa/internal/io/utils.cpp")).read())
+    out = []
+    for key in ("buildFile", "binaryFile"):
+        m = re.search(r'const std::string %s\s*=\s*"([^"]*)";' % key, u)
+        if not m:
+            raise TranslateError("kc::%s not found" % key)
+        out.append(("kc::" + key, m.group(1)))
+    m = re.search(r'return basename \+ std::string\("([^"]*)"\) \+ extension;', u)
+    m2 = re.search(r'return basename \+ std::string\("([^"]*)"\);', u)
+    if not m or not m2:
+        raise TranslateError("kc::cachedRawSourceFilename / cachedSourceFilename not found")
+    out += [("raw source suffix", m.group(1)), ("source suffix", m2.group(1))]
+    c = strip_comments(open(os.path.join(REPO, "src/core/device.cpp")).read())
+    m = re.search(r'io::hashDir\(kernelHash\)\s*\+\s*"([^"]*)"', c)
+    if not m:
+        raise TranslateError("string source file name not found in buildKernelFromString")
+    out.append(("string source", m.group(1)))
+    y = strip_comments(open(os.path.join(REPO, "src/occa/internal/utils/sys.cpp")).read())
+    m = re.search(r'io::cacheFile\(compilerVendorTest,\s*"([^"]*)"', y)
+    b = re.search(r'const std::string binaryFilename\s*=\s*hashDir \+ "([^"]*)";', y)
+    o = re.search(r'const std::string outFilename\s*=\s*hashDir \+ "([^"]*)";', y)
+    l = re.search(r'const std::string buildLogFilename\s*=\s*hashDir \+ "([^"]*)";', y)
+    if not (m and b and o and l):
+        raise TranslateError("compilerVendor file names not found")
+    out += [("vendor source", m.group(1)), ("vendor binary", b.group(1)), ("vendor output", o.group(1)), ("vendor log", l.group(1))]
+    z = strip_comments(open(os.path.join(REPO, "src/occa/internal/modes/openmp/utils.cpp")).read())
+    m = re.search(r'io::cacheFile\(openmpTest,\s*"([^"]*)"', z)
+    b = re.search(r'const std::string binaryFilename = io::dirname\(srcFilename\) \+ "([^"]*)";', z)
+    o = re.search(r'const std::string outFilename = io::dirname\(srcFilename\) \+ "([^"]*)";', z)
+    if not (m and b and o):
+        raise TranslateError("openmp::compilerFlag file names not found")
+    out += [("openmp source", m.group(1)), ("openmp binary", b.group(1)), ("openmp output", o.group(1))]
+    return out
+
+
 def lean_str(s):
     return '"' + s.replace("\\", "\\\\").replace('"', '\\"') + '"'
 
@@ -180,6 +217,8 @@ def gen():
     for k in sorted(facts):
         out.append("def %s : Bool := %s" % (k, "true" if facts[k] else "false"))
     out.append("def stageShape : List (String × Bool) := [" + ", ".join('("%s", %s)' % (k, k) for k in sorted(facts)) + "]")
+    out += ["", "/-- file names of the cache entries, as the source spells them -/",
+            "def cacheNames : List (String × String) := [" + ", ".join("(%s, %s)" % (lean_str(a), lean_str(b)) for a, b in names()) + "]"]
     out += ["", "end Occa.Gen.BuildFS", ""]
     h = write_if_changed(os.path.join(VERIF, "lean/OccaGen/BuildFSSites.lean"), "\n".join(out))
     return {"BuildFSSites": h}
